@@ -2,10 +2,13 @@
 # model under rust_decimal rounding (dec) and model under exact arithmetic on
 # the same cases.
 import hashlib
+import json
 import os
 import shutil
 import subprocess
 import tempfile
+
+from fractions import Fraction
 
 import core
 import gen
@@ -80,3 +83,80 @@ def run_acb_cli(bindir, files, args, tag="x"):
         return p.returncode, p.stdout, p.stderr, outs
     finally:
         shutil.rmtree(d, ignore_errors=True)
+
+
+
+class _Collect:
+    """stands in for the Result of a run: collects what the oracles report"""
+    def __init__(self):
+        self.msgs = []
+
+    def violation(self, kind, what, replay=None, found_input=True):
+        self.msgs.append(what)
+
+# ---------------------------------------------------------------- replay of a recorded violation
+def _case_of_hc(hc):
+    """a generated case back from the harness input a replay file records (CSV texts + -b options)"""
+    from props.c10 import rows_of_csv
+    rows = []
+    for f in hc["files"]:
+        if f.strip():
+            rows += rows_of_csv(f)
+    inits = {}
+    for s in hc.get("init") or []:
+        sec, sh, acb = s.split(":")
+        inits[sec] = ((sh, Fraction(sh)), (acb, Fraction(acb)))
+    return {"rows": rows, "inits": inits, "files": hc["files"]}
+
+
+def replay(res, ctx, path, judge=None, pair_judge=None):
+    """bin/check Cxx --replay FILE for the ledger properties: every recorded input of the file is run
+    again through the implementation (harness, current tree) and the extracted model; exit 1 when the
+    implementation panics, differs from the model, or the property's own oracle (`judge` on one run,
+    `pair_judge` on the recorded pair of inputs) fails again."""
+    rep = json.load(open(path))
+    named = [(k, v) for k, v in sorted(rep.items()) if isinstance(v, dict) and "files" in v]
+    if not named:
+        texts = [(k, v) for k, v in sorted(rep.items()) if isinstance(v, str) and v.lower().startswith("security,")]
+        named = [(k, {"files": [v], "init": [], "render": False, "costs": False}) for k, v in texts]
+    if not named:
+        print("replay: %s records no input (kind %s: %s)" % (path, rep.get("kind"), (rep.get("what") or "")[:200]))
+        print("replay: re-run `bin/check %s` to re-check the named theorem or projection" % res.prop)
+        return 1
+    bad = False
+    runs = {}
+    for name, hc in named:
+        hc = dict(hc, render=bool(hc.get("render")), costs=bool(hc.get("costs")))
+        try:
+            case = _case_of_hc(hc)
+        except Exception as e:       # not a file the generator's reader understands: implementation only
+            case = None
+            why = "%s: %s" % (type(e).__name__, e)
+        if case is None:
+            raw = run_harness(ctx["exe"], "core", [hc])[0]
+            print("replay[%s]: implementation outcome %s %s (model not run: %s)" % (
+                name, raw.get("status"), (raw.get("panic") or raw.get("err") or "")[:200], why))
+            if raw.get("status") == "panic":
+                bad = True
+            continue
+        r = run_cases(ctx, [case], render=hc["render"], costs=hc["costs"])[0]
+        runs[name] = r
+        i = r["impl"]
+        print("replay[%s]: implementation outcome %s%s" % (name, i["status"], (": " + str(i.get("panic"))[:200]) if i["status"] == "panic" else ""))
+        if i["status"] == "panic" and r["dec"]["status"] != "panic":
+            bad = True
+        d = core.diff_exact(r["dec"], i)
+        if d is not None:
+            print("replay[%s]: model (dec) and implementation differ: %s" % (name, d))
+            bad = True
+        if judge is not None:
+            for msg in judge(r) or []:
+                print("replay[%s]: FAILS: %s" % (name, msg))
+                bad = True
+    if pair_judge is not None and len(runs) >= 2:
+        for msg in pair_judge(runs) or []:
+            print("replay: FAILS: %s" % msg)
+            bad = True
+    if not bad:
+        print("replay: property holds on this input (implementation = model%s)" % (", property oracle passes" if judge or pair_judge else ""))
+    return 1 if bad else 0
